@@ -386,6 +386,89 @@ async fn requestor_recovers(addr: SocketAddr, certs: &Certs, bo: BackoffStrategy
     Ok(okc)
 }
 
+
+/// A requestor and its clones share the request-id counter and the pending-call map; after a connection
+/// loss every clone re-establishes its *own* stream. Concurrent calls on the recovered clones must still
+/// each get their own reply. Returns (calls that returned their own reply, wrong replies, failed calls).
+pub async fn requestor_clones_after_recovery(addr: SocketAddr, certs: &Certs, bo: BackoffStrategy, outages: usize, n_clones: usize, burst: usize, id: u64) -> std::result::Result<(u64, Vec<String>, Vec<String>), String> {
+    let topic = format!("/c12clones/top{}", id);
+    let (_rc, echo) = raw_echo(addr, certs, &topic).await.map_err(|e| e.to_string())?;
+    let cr = lib_client(&addr.to_string(), certs, Some(bo)).await.map_err(|e| e.to_string())?;
+    let mut rq = cr.requestor(&topic).with_request_encoder(StringCodec).with_reply_decoder(StringCodec).with_request_timeout(2500u64).map_err(|e| e.to_string())?.open().await.map_err(|e| e.to_string())?;
+    let mut est = false;
+    for n in 0..20 {
+        if let Ok(v) = rq.request(format!("est-{}", n)).await {
+            if v == format!("re:est-{}", n) {
+                est = true;
+                break;
+            }
+        }
+    }
+    if !est {
+        echo.abort();
+        return Err("precondition not reached: no request was answered before the first cut".into());
+    }
+    let mut clones: Vec<_> = (0..n_clones).map(|_| rq.clone()).collect();
+    clones.push(rq);
+    let mut ok = 0u64;
+    let mut wrong = vec![];
+    let mut failed = vec![];
+    for o in 0..=outages {
+        if o > 0 {
+            cr.verif_close_connection().await;
+            // every clone notices the loss with its next call (which may fail) and re-establishes its own stream
+            for (ci, c) in clones.iter_mut().enumerate() {
+                for attempt in 0..3 {
+                    let p = format!("recover-o{}-c{}-a{}", o, ci, attempt);
+                    match tokio::time::timeout(Duration::from_secs(40), c.request(p.clone())).await {
+                        Ok(Ok(v)) if v == format!("re:{}", p) => break,
+                        Ok(Ok(v)) => wrong.push(format!("request {:?} returned Ok({:?})", p, v)),
+                        Ok(Err(_)) => {}
+                        Err(_) => {
+                            echo.abort();
+                            return Err(format!("VIOLATION hang: request() on clone {} did not return within 40 s after outage {}", ci, o));
+                        }
+                    }
+                }
+            }
+        }
+        // concurrent burst on all clones
+        let mut tasks = vec![];
+        // every recovered clone is used by 8 concurrent callers (further clones of it share its stream), so
+        // that dispatches on *different* streams interleave densely
+        let mut keep = vec![];
+        for (ci, c) in clones.drain(..).enumerate() {
+            for sub in 0..8usize {
+                let mut c2 = c.clone();
+                tasks.push(tokio::spawn(async move {
+                    let mut res = vec![];
+                    for k in 0..burst {
+                        let p = format!("burst-o{}-c{}-s{}-k{}", o, ci, sub, k);
+                        let r = tokio::time::timeout(Duration::from_secs(40), c2.request(p.clone())).await;
+                        res.push((p, r.map(|x| x.map_err(|e| e.to_string())).map_err(|_| "no return within 40 s".to_string())));
+                    }
+                    res
+                }));
+            }
+            keep.push(c);
+        }
+        clones = keep;
+        for t in tasks {
+            let res = t.await.map_err(|e| format!("harness task: {e}"))?;
+            for (p, r) in res {
+                match r {
+                    Ok(Ok(v)) if v == format!("re:{}", p) => ok += 1,
+                    Ok(Ok(v)) => wrong.push(format!("request {:?} returned Ok({:?})", p, v)),
+                    Ok(Err(e)) => failed.push(format!("request {:?} failed: {}", p, e)),
+                    Err(e) => failed.push(format!("request {:?}: {}", p, e)),
+                }
+            }
+        }
+    }
+    echo.abort();
+    Ok((ok, wrong, failed))
+}
+
 async fn replier_recovers(addr: SocketAddr, certs: &Certs, bo: BackoffStrategy, outages: usize, id: u64) -> std::result::Result<u64, V> {
     let inc = |e: String| V("INCONCLUSIVE".into(), e);
     let topic = format!("/c12rep/top{}", id);
@@ -472,6 +555,243 @@ async fn replier_recovers(addr: SocketAddr, certs: &Certs, bo: BackoffStrategy, 
     }
     listen.abort();
     Ok(answered)
+}
+
+
+// ---------------------------------------------------------------------------------------
+// protocol-level fake server: records every registration frame, plays the far end of each role and
+// closes connections from its side (remote-initiated loss)
+// ---------------------------------------------------------------------------------------
+pub struct FakeServer {
+    pub addr: SocketAddr,
+    pub regs: Arc<Mutex<Vec<Frame>>>,
+    conns: Arc<Mutex<Vec<quinn::Connection>>>,
+    task: tokio::task::JoinHandle<()>,
+}
+
+impl FakeServer {
+    pub fn start(certs: &Certs) -> Result<FakeServer> {
+        use selium_server::quic::{load_root_store, read_certs, server_config, ConfigOptions};
+        let roots = load_root_store(certs.server_ca())?;
+        let (chain, key) = read_certs(certs.server_cert(), certs.server_key())?;
+        let cfg = server_config(roots, chain, key, ConfigOptions { keylog: false, stateless_retry: false, max_idle_timeout: quinn::IdleTimeout::from(quinn::VarInt::from_u32(15_000)) })?;
+        let endpoint = quinn::Endpoint::server(cfg, "127.0.0.1:0".parse().unwrap())?;
+        let addr = endpoint.local_addr()?;
+        let regs = Arc::new(Mutex::new(vec![]));
+        let conns = Arc::new(Mutex::new(vec![]));
+        let (r2, c2) = (regs.clone(), conns.clone());
+        let task = tokio::spawn(async move {
+            while let Some(connecting) = endpoint.accept().await {
+                let (regs, conns) = (r2.clone(), c2.clone());
+                tokio::spawn(async move {
+                    let Ok(conn) = connecting.await else { return };
+                    conns.lock().unwrap().push(conn.clone());
+                    while let Ok(stream) = conn.accept_bi().await {
+                        let regs = regs.clone();
+                        tokio::spawn(async move {
+                            let mut s = BiStream::from(stream);
+                            let Some(Ok(first)) = s.next().await else { return };
+                            regs.lock().unwrap().push(first.clone());
+                            if s.send(Frame::Ok).await.is_err() {
+                                return;
+                            }
+                            match first {
+                                Frame::RegisterPublisher(_) => while let Some(Ok(_)) = s.next().await {},
+                                Frame::RegisterSubscriber(_) => {
+                                    let mut n = 0u64;
+                                    loop {
+                                        n += 1;
+                                        let f = Frame::Message(MessagePayload { headers: None, message: Bytes::from(format!("{}", n)) });
+                                        if s.send(f).await.is_err() {
+                                            break;
+                                        }
+                                        tokio::time::sleep(Duration::from_millis(4)).await;
+                                    }
+                                }
+                                Frame::RegisterRequestor(_) => {
+                                    while let Some(Ok(f)) = s.next().await {
+                                        if let Frame::Message(m) = f {
+                                            let mut body = b"re:".to_vec();
+                                            body.extend_from_slice(&m.message);
+                                            if s.send(Frame::Message(MessagePayload { headers: m.headers, message: Bytes::from(body) })).await.is_err() {
+                                                break;
+                                            }
+                                        }
+                                    }
+                                }
+                                Frame::RegisterReplier(_) => {
+                                    let mut n = 0u64;
+                                    loop {
+                                        n += 1;
+                                        let mut h = HashMap::new();
+                                        h.insert("cid".to_string(), "0".to_string());
+                                        h.insert("req_id".to_string(), n.to_string());
+                                        if s.send(Frame::Message(MessagePayload { headers: Some(h), message: Bytes::from(format!("ask{}", n)) })).await.is_err() {
+                                            break;
+                                        }
+                                        match tokio::time::timeout(Duration::from_millis(300), s.next()).await {
+                                            Ok(Some(Ok(_))) | Err(_) => {}
+                                            _ => break,
+                                        }
+                                        tokio::time::sleep(Duration::from_millis(20)).await;
+                                    }
+                                }
+                                _ => {}
+                            }
+                        });
+                    }
+                });
+            }
+        });
+        Ok(FakeServer { addr, regs, conns, task })
+    }
+    /// remote-initiated connection loss
+    pub fn close_all(&self) {
+        for c in self.conns.lock().unwrap().drain(..) {
+            c.close(quinn::VarInt::from_u32(2), b"fake server drops the connection");
+        }
+    }
+    pub fn stop(&self) {
+        self.task.abort();
+    }
+}
+
+/// the stream must re-register with a frame identical to its original registration ("same settings")
+async fn reregistration(role: usize, certs: &Certs, outages: usize) -> std::result::Result<u64, V> {
+    use selium::prelude::{Operations, Retain};
+    let inc = |e: String| V("INCONCLUSIVE".into(), e);
+    let fake = FakeServer::start(certs).map_err(|e| inc(format!("fake server: {e}")))?;
+    let role_name = ["publisher", "subscriber", "requestor", "replier"][role];
+    let bo = BackoffStrategy::constant().with_max_attempts(3).with_step(Duration::from_millis(10));
+    let client = lib_client(&fake.addr.to_string(), certs, Some(bo)).await.map_err(|e| inc(format!("connect to fake server: {e}")))?;
+    let topic = format!("/c12same/{}", role_name);
+    let mut units = 0u64;
+    match role {
+        0 => {
+            let mut p = client
+                .publisher(&topic)
+                .with_encoder(StringCodec)
+                .retain(Duration::from_secs(7))
+                .map_err(|e| inc(e.to_string()))?
+                .map("first/module.wasm")
+                .filter("second/module.wasm")
+                .open()
+                .await
+                .map_err(|e| inc(e.to_string()))?;
+            for o in 0..outages {
+                p.send(format!("before-{}", o)).await.map_err(|e| inc(format!("send before cut: {e}")))?;
+                tokio::time::sleep(Duration::from_millis(50)).await;
+                fake.close_all();
+                let mut ok = 0;
+                for k in 0..200 {
+                    match tokio::time::timeout(Duration::from_secs(30), p.send(format!("after-{}-{}", o, k))).await {
+                        Ok(Ok(())) => ok += 1,
+                        Ok(Err(e)) => return Err(V("publisher/error-after-remote-close".into(), format!("outage #{}: send failed with {:?} after the server closed the connection", o + 1, e.to_string()))),
+                        Err(_) => return Err(V("publisher/hangs-after-remote-close".into(), format!("outage #{}: send() did not return within 30 s", o + 1))),
+                    }
+                    if fake.regs.lock().unwrap().len() >= o + 2 && ok >= 3 {
+                        break;
+                    }
+                    tokio::time::sleep(Duration::from_millis(10)).await;
+                }
+                units += ok;
+            }
+        }
+        1 => {
+            let mut sub = client
+                .subscriber(&topic)
+                .with_decoder(StringCodec)
+                .retain(Duration::from_secs(9))
+                .map_err(|e| inc(e.to_string()))?
+                .filter("only/this.wasm")
+                .open()
+                .await
+                .map_err(|e| inc(e.to_string()))?;
+            for o in 0..outages {
+                for _ in 0..5 {
+                    match tokio::time::timeout(Duration::from_secs(10), sub.next()).await {
+                        Ok(Some(Ok(_))) => units += 1,
+                        other => return Err(V("subscriber/error-while-connected".into(), format!("outage {}: {:?}", o, other.map(|x| x.map(|y| y.map_err(|e| e.to_string())))))),
+                    }
+                }
+                fake.close_all();
+                let t0 = Instant::now();
+                loop {
+                    match tokio::time::timeout(Duration::from_secs(20), sub.next()).await {
+                        Ok(Some(Ok(_))) => {
+                            units += 1;
+                            if fake.regs.lock().unwrap().len() >= o + 2 {
+                                break;
+                            }
+                        }
+                        Ok(Some(Err(e))) => return Err(V("subscriber/error-after-remote-close".into(), format!("outage #{}: yielded {:?}", o + 1, e.to_string()))),
+                        Ok(None) => return Err(V("subscriber/ended-after-remote-close".into(), format!("outage #{}: stream ended", o + 1))),
+                        Err(_) => return Err(V("subscriber/hangs-after-remote-close".into(), format!("outage #{}: nothing yielded for 20 s", o + 1))),
+                    }
+                    if t0.elapsed() > Duration::from_secs(40) {
+                        return Err(V("subscriber/not-reregistered".into(), format!("outage #{}: no second registration reached the server within 40 s", o + 1)));
+                    }
+                }
+            }
+        }
+        2 => {
+            let mut rq = client.requestor(&topic).with_request_encoder(StringCodec).with_reply_decoder(StringCodec).with_request_timeout(1000u64).map_err(|e| inc(e.to_string()))?.open().await.map_err(|e| inc(e.to_string()))?;
+            for o in 0..outages {
+                let v = rq.request(format!("before-{}", o)).await.map_err(|e| inc(format!("request before cut: {e}")))?;
+                if v != format!("re:before-{}", o) {
+                    return Err(V("requestor/wrong-reply".into(), format!("got {:?}", v)));
+                }
+                fake.close_all();
+                let _ = tokio::time::timeout(Duration::from_secs(40), rq.request(format!("cut-{}", o))).await;
+                for k in 0..3 {
+                    match tokio::time::timeout(Duration::from_secs(40), rq.request(format!("after-{}-{}", o, k))).await {
+                        Ok(Ok(v)) if v == format!("re:after-{}-{}", o, k) => units += 1,
+                        other => return Err(V("requestor/not-working-after-remote-close".into(), format!("outage #{}: call #{} after the server closed the connection: {:?}", o + 1, k + 2, other.map(|r| r.map_err(|e| e.to_string()))))),
+                    }
+                }
+            }
+        }
+        _ => {
+            let mut rp = client
+                .replier(&topic)
+                .with_request_decoder(StringCodec)
+                .with_reply_encoder(StringCodec)
+                .with_handler(|req: String| async move { Ok::<String, std::convert::Infallible>(format!("re:{}", req)) })
+                .open()
+                .await
+                .map_err(|e| inc(e.to_string()))?;
+            let listen = tokio::spawn(async move { rp.listen().await });
+            for o in 0..outages {
+                tokio::time::sleep(Duration::from_millis(150)).await;
+                fake.close_all();
+                let t0 = Instant::now();
+                while fake.regs.lock().unwrap().len() < o + 2 {
+                    if listen.is_finished() || t0.elapsed() > Duration::from_secs(30) {
+                        let why = if listen.is_finished() { "listen() returned" } else { "no re-registration within 30 s" };
+                        listen.abort();
+                        return Err(V("replier/not-reregistered-after-remote-close".into(), format!("outage #{}: {}", o + 1, why)));
+                    }
+                    tokio::time::sleep(Duration::from_millis(20)).await;
+                }
+                units += 1;
+            }
+            listen.abort();
+        }
+    }
+    let regs = fake.regs.lock().unwrap().clone();
+    fake.stop();
+    if regs.len() < outages + 1 {
+        return Err(V(format!("{}/not-reregistered", role_name), format!("{} outages, but only {} registration frames reached the server", outages, regs.len())));
+    }
+    for (i, r) in regs.iter().enumerate().skip(1) {
+        if *r != regs[0] {
+            return Err(V(
+                format!("{}/reregistered-with-different-settings", role_name),
+                format!("registration #{} differs from the original: original {:?}, re-registration {:?}", i + 1, regs[0], r),
+            ));
+        }
+    }
+    Ok(units)
 }
 
 // ---------------------------------------------------------------------------------------
@@ -666,6 +986,27 @@ pub fn run(rep: &mut StageReport, tier: &str, _seed: u64) {
             };
             out.push((format!("recovery/{}", role_name), cfg, r));
         }
+        // requestor clones: concurrent calls on clones that each recovered their own stream
+        for (k, (n_clones, outages)) in [(3usize, 2usize), (5, 1)].into_iter().enumerate() {
+            let bo = backoff(k, 3, 10);
+            let burst = if thorough { 40 } else { 8 };
+            let cfg = json!({"role": "requestor", "clones": n_clones + 1, "outages": outages, "concurrent_calls_per_clone_after_each_outage": burst});
+            let r = match tokio::time::timeout(Duration::from_secs(400), requestor_clones_after_recovery(server.addr, &certs.0, bo, outages, n_clones, burst, k as u64)).await {
+                Err(_) => Err(V("INCONCLUSIVE".into(), "watchdog: clones scenario did not finish in 400 s".into())),
+                Ok(Err(e)) if e.starts_with("VIOLATION hang") => Err(V("requestor/hangs-after-recovery".into(), e)),
+                Ok(Err(e)) => Err(V("INCONCLUSIVE".into(), e)),
+                Ok(Ok((ok, wrong, failed))) => {
+                    if let Some(w) = wrong.first() {
+                        Err(V("requestor/clone-got-foreign-reply-after-recovery".into(), format!("{} of {} calls on recovered clones returned another call's reply, e.g. {}", wrong.len(), ok as usize + wrong.len() + failed.len(), w)))
+                    } else if failed.len() * 10 > (ok as usize + failed.len()) {
+                        Err(V("requestor/clones-not-working-after-recovery".into(), format!("{} of {} calls on recovered clones failed although the replier answers immediately, e.g. {}", failed.len(), ok as usize + failed.len(), failed[0])))
+                    } else {
+                        Ok(ok)
+                    }
+                }
+            };
+            out.push(("recovery/requestor-clones".to_string(), cfg, r));
+        }
         server.stop();
         // exhaustion + unrecoverable, every role
         for role in 0..4usize {
@@ -679,6 +1020,17 @@ pub fn run(rep: &mut StageReport, tier: &str, _seed: u64) {
                 };
                 out.push((format!("{}/{}", if unrec { "unrecoverable" } else { "exhaustion" }, role_name), cfg, r));
             }
+        }
+        // re-registration with the same settings after a remote-initiated close (protocol-level fake server)
+        for role in 0..4usize {
+            let role_name = ["publisher", "subscriber", "requestor", "replier"][role];
+            let outages = if thorough { 6 } else { 2 };
+            let cfg = json!({"role": role_name, "fault": "the server closes the connection from its side", "outages": outages, "checked": "every re-registration frame equals the original one"});
+            let r = match tokio::time::timeout(Duration::from_secs(300), reregistration(role, &certs.0, outages)).await {
+                Ok(r) => r,
+                Err(_) => Err(V("INCONCLUSIVE".into(), "watchdog: re-registration scenario did not finish in 300 s".into())),
+            };
+            out.push((format!("same-settings/{}", role_name), cfg, r));
         }
         out
     });
